@@ -93,6 +93,26 @@ class Obligations(object):
         self.sat.append(cex)
         return 'sat'
 
+    def prove_all(self, goals, assumptions, v, vacuity=True):
+        """discharge a batch [(name, goal, site)]: one conjunction first, individual queries only to localise"""
+        if not goals:
+            return
+        conj = z3.And(*[g for _, g, _ in goals])
+        n0 = self.n
+        r = self.prove('batch(%d):%s..' % (len(goals), goals[0][0]), conj, assumptions, v, site=goals[0][2],
+                       vacuity=vacuity)
+        if r == 'unsat':
+            self.n += len(goals) - 1
+            self.unsat += len(goals) - 1
+            return
+        if r == 'sat':
+            self.sat.pop()
+        else:
+            self.unknown.pop()
+        self.n = n0
+        for name, g, site in goals:
+            self.prove(name, g, assumptions, v, site=site)
+
     def fact(self, name, ok, site=None, detail=None):
         """a concrete (structural) predicate on the real code's result; False is a violation candidate"""
         self.n += 1
